@@ -84,6 +84,9 @@ def shard(ctx):
 
     prof = StreamProfile(knobs_fn=knobs, script_len=ctx.params["script_len"], op_weights=op_weights(), templates=templ)
     prof.template_prob = 0.4
+    from ..templates import ALL as _ALL
+
+    prof.rotation = [t_dup_blocks, t_nested_windows, t_alias_alloc, t_quasi] + list(_ALL)
     run_stream(ctx, prof, [SafetyMonitor(ctx, ninputs=ctx.params["ninputs"])])
 
 
